@@ -91,7 +91,7 @@ theorem plistEq_iff (l m : List PConfig) :
 theorem socket_eq_characterised (a b : GConfig) :
     socketEq a b = true ↔
       a.socket = b.socket ∧ a.socket_backlog = b.socket_backlog ∧ a.socket_mode = b.socket_mode ∧ a.socket_owner = b.socket_owner := by
-  simp [socketEq, socketEqAttrs, sAttrEq, and_assoc]
+  simp [socketEq, socketEqAttrs, sAttrEq, and_assoc] <;> grind
 
 /-- **group_eq_characterised.**  `[group:x]` / `[program:x]` groups: equal exactly when the other side is a
     ProcessGroupConfig (or subclass) and name, priority and every process agree. -/
@@ -99,7 +99,8 @@ theorem group_eq_characterised (a b : GConfig) (ha : a.kind = .group) :
     gconfigEq a b = true ↔
       (b.kind = .group ∨ b.kind = .fcgi) ∧ a.name = b.name ∧ a.priority = b.priority ∧ plistEq a.procs b.procs = true := by
   cases hb : b.kind <;>
-    simp [gconfigEq, ha, hb, groupEq, isInstance, gkindClass, eqBaseClass, classBases, groupEqAttrs, gAttrEq, List.lookup, and_assoc]
+    simp [gconfigEq, ha, hb, groupEq, isInstance, gkindClass, eqBaseClass, classBases, groupEqAttrs, gAttrEq, List.lookup, and_assoc] <;>
+    grind     -- (only reached when options.py lists the comparisons in another order)
 
 /-- **pool_eq_characterised.**  Event listener pools: equal exactly when the other side is a pool too and name, priority,
     every process, the buffer size, the subscribed event types and the result handler agree. -/
@@ -108,7 +109,8 @@ theorem pool_eq_characterised (a b : GConfig) (ha : a.kind = .pool) :
       b.kind = .pool ∧ a.name = b.name ∧ a.priority = b.priority ∧ plistEq a.procs b.procs = true ∧
       a.buffer_size = b.buffer_size ∧ a.pool_events = b.pool_events ∧ a.result_handler = b.result_handler := by
   cases hb : b.kind <;>
-    simp [gconfigEq, ha, hb, isInstance, gkindClass, eqBaseClass, classBases, poolEqAttrs, gAttrEq, List.lookup, and_assoc]
+    simp [gconfigEq, ha, hb, isInstance, gkindClass, eqBaseClass, classBases, poolEqAttrs, gAttrEq, List.lookup, and_assoc] <;>
+    grind     -- (only reached when options.py lists the comparisons in another order)
 
 /-- **fcgi_eq_characterised.**  FastCGI groups: equal exactly when the other side is a FastCGI group too, the socket
     (url, backlog, mode, owner) agrees, and name, priority and every process agree. -/
@@ -118,7 +120,8 @@ theorem fcgi_eq_characterised (a b : GConfig) (ha : a.kind = .fcgi) :
         a.socket_owner = b.socket_owner) ∧ a.name = b.name ∧ a.priority = b.priority ∧ plistEq a.procs b.procs = true := by
   cases hb : b.kind <;>
     simp [gconfigEq, ha, hb, groupEq, isInstance, gkindClass, eqBaseClass, classBases, groupEqAttrs, fcgiEqAttrs, gAttrEq,
-      fcgiEqDelegatesToGroup, socket_eq_characterised, List.lookup, and_assoc]
+      fcgiEqDelegatesToGroup, socket_eq_characterised, List.lookup, and_assoc] <;>
+    grind     -- (only reached when options.py / datatypes.py list the comparisons in another order)
 
 /-- what "nothing of the group's own options differs" means, per kind -/
 def sameGroupOptions (a b : GConfig) : Prop :=
